@@ -1,4 +1,4 @@
-import I2N.Lemmas.Trav
+import I2N.Lemmas.TravReady
 import I2N.Model.TravMon
 /-!
 # C05 — States are removed only after every dependant finished, and only if asked
@@ -175,5 +175,208 @@ theorem never_clean_flat_or_clone_source (g : Graph) (s : State) (n w : Nat)
   · by_cases b : (g.node n).dryRun = true <;> simp [b, h]
   · by_cases b : (g.node n).dryRun = true <;> by_cases c : (g.node n).flat = true <;> simp [b, c, h]
   · simp [h]
+
+/-! ## lifted to the step: over ALL reachable states
+
+Vocabulary as in `Props/C01.lean` (`ReachH`, `Trv`, `visH`, `OwnerNames`, `FlatClass`; `Lemmas/TravReady.lean`). -/
+
+/-- A child is dropped only after the worker traversed it: in every reachable state, if worker `v` is registered in
+`droppedCleanup` of the class of `n` for the class of a parsed child `c`, then `v`'s own copy of `c`'s class carries `v`'s
+`finished` mark. -/
+theorem children_dropped_means_decided (g : Graph) (hwf : graphWF g = true) (hroot : (g.node g.root).flat = true)
+    (hO : OwnerNames g) (hF : FlatClass g) {ncls : Nat} {store : Store} {H0 : List Nat} {s : State}
+    (hr : ReachH g ncls store H0 s) (n c v : Nat) (hc : c < g.nodes.length) (hfc : (g.node c).flat = false)
+    (h : v ∈ regWorkers (s.cr (g.node n).cls).droppedCleanup (some (g.node c).cls)) :
+    ∃ c', c' < g.nodes.length ∧ (g.node c').cls = (g.node c).cls ∧ (g.node c').owner = some v ∧
+      (s.nd c').finished = some v :=
+  ((hr.trv (GraphWF.of_bool hwf) hroot hO.uniq).dropC _ _ v h).owned hO hF hc hfc
+
+/-- … and at that time the run decision for it was negative and the node was cleanup-ready: `drop_child` is called only
+on the way down, after `should_run = false` and `is_cleanup_ready` (single-iteration form: if the rest of the loop body
+changes some `droppedCleanup` register, both were the case). -/
+theorem child_dropped_only_when_decided (g : Graph) (s : State) (w next prev : Nat) (dir : Dir) (s' : State) (evs : List Event)
+    (f : Flow) (h : afterTraverse g s w next prev dir = (s', evs, f))
+    (hdrop : ∃ c, (s'.cr c).droppedCleanup ≠ (s.cr c).droppedCleanup) :
+    dir = .down ∧ ∃ s1 e1, runDecision g s next w = .ok (false, s1, e1) ∧ isCleanupReady g s1 next w = true := by
+  obtain ⟨c, hc⟩ := hdrop
+  unfold afterTraverse at h
+  cases hd : runDecision g s next w with
+  | error e =>
+    simp only [hd, Prod.mk.injEq] at h
+    rw [← h.1] at hc; exact absurd rfl hc
+  | ok r =>
+    obtain ⟨run, s1, e1⟩ := r
+    have hcr : ∀ c, s1.cr c = s.cr c := by
+      intro c
+      rcases runDecision_state g s next w run s1 e1 hd with h' | h'
+      · rw [h']
+      · rw [h']; rfl
+    simp only [hd] at h
+    cases dir with
+    | up =>
+      exfalso
+      simp only [Prod.mk.injEq] at h
+      apply hc
+      rw [← h.1, ← hcr c]
+      split
+      · show ((dropParent g s1 prev next w).cr c).droppedCleanup = _
+        unfold dropParent
+        rcases cr_setCr_cases s1 (g.node prev).cls
+          (fun r => { r with droppedSetup := regAdd r.droppedSetup ((g.node next).cls, w) }) c with h' | ⟨_, h'⟩
+        · rw [h']
+        · rw [h']
+      · rfl
+    | down =>
+      refine ⟨rfl, ?_⟩
+      cases run with
+      | true =>
+        exfalso
+        simp only [if_true, Prod.mk.injEq] at h
+        apply hc
+        rw [← h.1, ← hcr c]; rfl
+      | false =>
+        refine ⟨s1, e1, rfl, ?_⟩
+        by_cases hready : isCleanupReady g s1 next w = true
+        · exact hready
+        · exfalso
+          simp only [Bool.false_eq_true, if_false, hready] at h
+          apply hc
+          cases hp : pickChild g s1 next w with
+          | none =>
+            simp only [hp, Prod.mk.injEq] at h
+            rw [← h.1, hcr c]
+          | some r =>
+            obtain ⟨c2, s2⟩ := r
+            simp only [hp, Prod.mk.injEq] at h
+            obtain ⟨_, _, hs2⟩ := pickChild_rel g s1 next w c2 s2 hp
+            rw [← h.1, ← hcr c, hs2]
+            show ((s1.setCr _ _).cr c).droppedCleanup = _
+            rcases cr_setCr_cases s1 (g.node c2).cls
+              (fun r => { r with pickedBySetup := regAdd r.pickedBySetup ((g.node next).cls, w) }) c with h' | ⟨_, h'⟩
+            · rw [h']
+            · rw [h']
+
+/-- Cleanup-readiness therefore means "all dependants traversed": in a state satisfying the invariant (every reachable
+state and every intermediate state of a step), a node that is cleanup-ready for `v` on a graph `gv` with the nodes of
+`g` (the graph as parsed so far) has all its relevant parsed children traversed by `v`. -/
+theorem cleanup_ready_children_traversed (g : Graph) (hwf : graphWF g = true) (hO : OwnerNames g) (hF : FlatClass g)
+    {H0 : List Nat} {s : State} (t : Trv g H0 s) (gv : Graph) (hsn : SameNodes gv g)
+    (hsub : ∀ n c, c ∈ (gv.node n).cleanup → c ∈ (g.node n).cleanup) (m v : Nat)
+    (h : isCleanupReady gv s m v = true) :
+    ∀ c ∈ (gv.node m).cleanup, relevant g v c.1 = true → (g.node c.1).flat = false →
+      ∃ c', c' < g.nodes.length ∧ (g.node c').cls = (g.node c.1).cls ∧ (g.node c').owner = some v ∧
+        (s.nd c').finished = some v := by
+  intro c hc hrel hfc
+  have h1 := (cleanup_ready_iff gv s m v).mp h c hc (by rw [relevant_sameNodes hsn]; exact hrel)
+  rw [hsn.cls, hsn.cls] at h1
+  exact (t.dropC _ _ v h1).owned hO hF ((GraphWF.of_bool hwf).cleanup_lt m c (hsub m c hc)) hfc
+
+/-- "The last worker closes the door", at the level of the step: whenever a `resume` step of worker `w` emits an `unset`
+request, it was sent by `w` for a node `n` from `sync_states` inside `reverse_node`, after the clean decision — taken in a
+state `sd` of this step (`sd` satisfies the invariant `Trv`, the other workers' records are those of `s`, `n` carries
+`w`'s `started` mark), on the graph visible at that time (`visH g hid`, `hid` between what is hidden in `sd` and what was
+hidden initially) — was positive.  The request lists only states of `n` marked for removal.  And if `n` is reversible,
+then in `sd` all involved workers had finished the node and every involved worker `v` of `w`'s swarm (all for `localhost`)
+had its copy `m` of `n` cleanup-ready, without pending result, and had traversed every relevant parsed dependant of `m`. -/
+theorem unset_only_when_all_dropped (g : Graph) (hwf : graphWF g = true) (hroot : (g.node g.root).flat = true)
+    (hO : OwnerNames g) (hF : FlatClass g) {ncls : Nat} {store : Store} {H0 : List Nat} {s : State}
+    (hr : ReachH g ncls store H0 s) (w : Nat) (out : Outcome) (fuel : Nat)
+    (wid : String) (reqs : List (String × String)) (sc : List String) (ok : Bool)
+    (he : Event.door wid "unset" reqs sc ok ∈ (resume g s w out fuel).2) :
+    wid = (g.worker w).id ∧ ∃ hid sd n, (∀ h ∈ sd.hidden, h ∈ hid) ∧ (∀ h ∈ hid, h ∈ H0) ∧ Trv g H0 sd ∧
+      (∀ v, v ≠ w → sd.wd v = s.wd v) ∧ n < g.nodes.length ∧ (sd.nd n).started = some w ∧
+      cleanDecision (visH g hid) sd n w = .ok true ∧
+      (reqs ≠ [] ∧ ∀ vs ∈ reqs, vs ∈ (g.node n).sets ∧ (unsetModeOf (g.node n) vs.1).toList.head? = some 'f') ∧
+      (isReversible (g.node n) = true →
+        isFinished g sd n w (-1) = true ∧
+        ∀ v ∈ involved g sd n,
+          ((g.worker w).swarm == "localhost" || strIn (g.worker w).swarm (g.worker v).id) = true →
+          ∃ m, (if g.idIn v n then some n else (g.copies n).tail.find? (fun m => g.idIn v m)) = some m ∧
+            isCleanupReady (visH g hid) sd m v = true ∧ (sd.nd m).results.all (fun r => lower r.status != "unknown") = true ∧
+            ∀ c ∈ ((visH g hid).node m).cleanup, relevant g v c.1 = true → (g.node c.1).flat = false →
+              ∃ c', c' < g.nodes.length ∧ (g.node c').cls = (g.node c.1).cls ∧ (g.node c').owner = some v ∧
+                (sd.nd c').finished = some v) := by
+  have t := hr.trv (GraphWF.of_bool hwf) hroot hO.uniq
+  obtain ⟨hid, sd, n, h1, h2, h3, hn, hst, hcd, hev⟩ :=
+    ((resume_ok g H0 (GraphWF.of_bool hwf) hroot s w out fuel t).2 _ he).1 wid reqs sc ok rfl
+  have td := t.upd hO.uniq h3
+  have hsn := sameNodes_visH g hid
+  obtain ⟨hw, _, ha, hreq⟩ := syncStates_unset_event (visH g hid) sd n w none wid reqs sc ok hev
+  obtain ⟨a1, _, a3, _, _, a6⟩ := accOk_syncAcc ((visH g hid).node n) none
+  refine ⟨by rw [hw, hsn.worker], hid, sd, n, h1, h2, td, h3.others, hn, hst, hcd, ⟨?_, ?_⟩, fun hrev => ?_⟩
+  · rw [hreq]; exact a3 ha
+  · intro vs hvs
+    rw [hreq] at hvs
+    exact ⟨by rw [← hsn.sets]; exact a6 vs hvs, by rw [← unsetModeOf_sameNodes hsn]; exact a1 vs hvs⟩
+  · obtain ⟨hfin, hall⟩ := clean_requires_all_ready (visH g hid) sd n w (by rw [isReversible_sameNodes hsn]; exact hrev) hcd
+    refine ⟨by rw [← isFinished_sameNodes hsn]; exact hfin, fun v hv hsw => ?_⟩
+    obtain ⟨m, hm, hcr, hres⟩ := hall v (by rw [involved_sameNodes hsn]; exact hv) (by rw [hsn.worker, hsn.worker]; exact hsw)
+    refine ⟨m, ?_, hcr, hres, ?_⟩
+    · rw [← hm]
+      simp only [idIn_sameNodes hsn, copies_sameNodes hsn]
+    · exact cleanup_ready_children_traversed g hwf hO hF td (visH g hid) hsn (fun n c => visH_cleanup_sub g hid n c) m v hcr
+
+/-- … on a pre-parsed graph (nothing hidden initially) the decision is taken on the full graph: all dependants count. -/
+theorem unset_only_when_all_dropped_eager (g : Graph) (hwf : graphWF g = true) (hroot : (g.node g.root).flat = true)
+    (hO : OwnerNames g) (hF : FlatClass g) {ncls : Nat} {store : Store} {s : State}
+    (hr : ReachH g ncls store [] s) (w : Nat) (out : Outcome) (fuel : Nat)
+    (wid : String) (reqs : List (String × String)) (sc : List String) (ok : Bool)
+    (he : Event.door wid "unset" reqs sc ok ∈ (resume g s w out fuel).2) :
+    wid = (g.worker w).id ∧ ∃ sd n, Trv g [] sd ∧ (∀ v, v ≠ w → sd.wd v = s.wd v) ∧ n < g.nodes.length ∧
+      (sd.nd n).started = some w ∧ cleanDecision g sd n w = .ok true ∧
+      (isReversible (g.node n) = true →
+        isFinished g sd n w (-1) = true ∧
+        ∀ v ∈ involved g sd n,
+          ((g.worker w).swarm == "localhost" || strIn (g.worker w).swarm (g.worker v).id) = true →
+          ∃ m, (if g.idIn v n then some n else (g.copies n).tail.find? (fun m => g.idIn v m)) = some m ∧
+            isCleanupReady g sd m v = true ∧ (sd.nd m).results.all (fun r => lower r.status != "unknown") = true ∧
+            ∀ c ∈ (g.node m).cleanup, relevant g v c.1 = true → (g.node c.1).flat = false →
+              ∃ c', c' < g.nodes.length ∧ (g.node c').cls = (g.node c.1).cls ∧ (g.node c').owner = some v ∧
+                (sd.nd c').finished = some v) := by
+  obtain ⟨h0, hid, sd, n, _, h2, td, h3, hn, hst, hcd, _, hrev⟩ :=
+    unset_only_when_all_dropped g hwf hroot hO hF hr w out fuel wid reqs sc ok he
+  have : hid = [] := by
+    cases hid with
+    | nil => rfl
+    | cons a r => exact absurd (h2 a List.mem_cons_self) (by simp)
+  subst this
+  exact ⟨h0, sd, n, td, h3, hn, hst, hcd, hrev⟩
+
+/-- the only source of `unset` requests is this: a step that emits none of them removes no state through the door
+(`reuse_states_never_unset` lifted: a node without `f.`-marked set state never appears in an `unset` request) -/
+theorem unset_only_if_marked_step (g : Graph) (hwf : graphWF g = true) (hroot : (g.node g.root).flat = true)
+    (hO : OwnerNames g) (hF : FlatClass g) {ncls : Nat} {store : Store} {H0 : List Nat} {s : State}
+    (hr : ReachH g ncls store H0 s) (w : Nat) (out : Outcome) (fuel : Nat)
+    (wid : String) (reqs : List (String × String)) (sc : List String) (ok : Bool)
+    (he : Event.door wid "unset" reqs sc ok ∈ (resume g s w out fuel).2) :
+    ∃ n, n < g.nodes.length ∧ ∃ vs ∈ (g.node n).sets, vs ∈ reqs ∧ (unsetModeOf (g.node n) vs.1).toList.head? = some 'f' := by
+  obtain ⟨_, hid, sd, n, _, _, _, _, hn, _, _, ⟨hne, hall⟩, _⟩ :=
+    unset_only_when_all_dropped g hwf hroot hO hF hr w out fuel wid reqs sc ok he
+  obtain ⟨vs, hvs⟩ := List.exists_mem_of_ne_nil _ hne
+  exact ⟨n, hn, vs, (hall vs hvs).1, hvs, (hall vs hvs).2⟩
+
+/-! ### non-vacuity (the instance `exGraph` of `Lemmas/TravReady.lean`) -/
+
+example : graphWF exGraph = true ∧ (exGraph.node exGraph.root).flat = true ∧ ownerNamesB exGraph = true := by decide
+example : FlatClass exGraph := by decide
+example : ReachH exGraph 3 [] [] exS2 := reachH_runSched exGraph 3 [] [] 100 _ _ ReachH.init
+
+set_option maxRecDepth 100000 in
+/-- `b` (node 2, reversible: `unset_mode=fi`) passed: net1 backs out of it, removes its state and — being the only
+involved worker — drops it as a child of `a`; its copy of `b` carries its mark -/
+example : isReversible (exGraph.node 2) = true ∧
+    Event.door "net1" "unset" [("vm1", "b")] ["own"] true ∈ (resume exGraph exS2 0 exPass 100).2 ∧
+    0 ∈ regWorkers ((resume exGraph exS2 0 exPass 100).1.cr (exGraph.node 0).cls).droppedCleanup (some (exGraph.node 2).cls) ∧
+    ((resume exGraph exS2 0 exPass 100).1.nd 2).finished = some 0 := by
+  decide +kernel
+
+/-! lazy expansion (`H0 = [0, 1, 2, 3]`, see `Props/C01.lean`): the same removal on the lazily expanded suite -/
+
+example : ReachH exLazy 4 [] [0, 1, 2, 3] exL2 := reachH_runSched exLazy 4 [] _ 100 _ _ ReachH.init
+
+set_option maxRecDepth 100000 in
+example : exL2.hidden = [1, 3] ∧
+    Event.door "net1" "unset" [("vm1", "b")] ["own"] true ∈ (resume exLazy exL2 0 exPass 100).2 := by
+  decide +kernel
 
 end I2N.Props.C05
